@@ -360,6 +360,12 @@ impl TheDrawFont {
         }
     }
 
+    /// Read access to the glyph table for the external verification harness (glyph `idx` = char code - 33).
+    #[cfg(icy_engine_verif)]
+    pub fn verif_glyph(&self, idx: usize) -> Option<&FontGlyph> {
+        self.char_table.get(idx).and_then(Option::as_ref)
+    }
+
     pub fn get_font_height(&self) -> i32 {
         let f = self.char_table.iter().flatten().next();
         if let Some(glyph) = f {
